@@ -170,7 +170,42 @@ def mod_neg_zero_proof():
     return out
 
 
+def ceil_identity(x, d):
+    """for d > 0 and x >= 1: (x-1)//d + 1 == -((-x)//d)   (count of a range == ceiling of length/step)"""
+    return z3.Implies(z3.And(d > 0, x >= 1), S.f_pydiv(x - 1, d) + 1 == -S.f_pydiv(-x, d))
+
+
+def ceil_identity_proof():
+    x, d, t = z3.Ints("x!l d!l t!l")
+    hyps = _moddefs(x - 1, d) + _moddefs(-x, d)
+    q1, q2 = S.f_pydiv(x - 1, d), S.f_pydiv(-x, d)
+    mono = [z3.Implies(z3.And(t >= 1, d > 0), t * d >= d), z3.Implies(z3.And(t <= -1, d > 0), t * d <= -d), z3.Implies(t == 0, t * d == 0)]
+    out = [("lemma-base", f"ceil_identity:mono{i}", [], f) for i, f in enumerate(mono)]
+    inst = [z3.substitute(f, (t, q1 + q2 + 1)) for f in mono]
+    out.append(("lemma-step", "ceil_identity", hyps + inst, ceil_identity(x, d)))
+    return out
+
+
+def div_neg(x, c):
+    """x // c == (-x) // (-c) for c != 0 (Python floor division)"""
+    return z3.Implies(c != 0, S.f_pydiv(x, c) == S.f_pydiv(-x, -c))
+
+
+def div_neg_proof():
+    x, c, t = z3.Ints("x!l c!l t!l")
+    hyps = _moddefs(x, c) + _moddefs(-x, -c)
+    q1, q2 = S.f_pydiv(x, c), S.f_pydiv(-x, -c)
+    mono = [z3.Implies(z3.And(t >= 1, c > 0), t * c >= c), z3.Implies(z3.And(t <= -1, c > 0), t * c <= -c),
+            z3.Implies(z3.And(t >= 1, c < 0), t * c <= c), z3.Implies(z3.And(t <= -1, c < 0), t * c >= -c)]
+    out = [("lemma-base", f"div_neg:mono{i}", [], f) for i, f in enumerate(mono)]
+    inst = [z3.substitute(f, (t, q1 - q2)) for f in mono]
+    out.append(("lemma-step", "div_neg", hyps + inst, div_neg(x, c)))
+    return out
+
+
 LEMMAS = {
+    "ceil_identity": (ceil_identity, ceil_identity_proof),
+    "div_neg": (div_neg, div_neg_proof),
     "mod_neg_zero": (mod_neg_zero, mod_neg_zero_proof),
     "mod_multiple": (mod_multiple, mod_multiple_proof),
     "uniform_prefix": (uniform_prefix, uniform_prefix_proof),
